@@ -280,7 +280,18 @@ class SList:
             if isinstance(k, int):
                 return items[k]
             if not items:
-                raise Unsupported('index into empty list')
+                # guarded by 0 <= k < 0 wherever it is used: any value of the element type will do
+                def dummy(t):
+                    if isinstance(t, TTuple):
+                        return tuple(dummy(e) for e in t.elts)
+                    if isinstance(t, TReal):
+                        return z3.RealVal(0)
+                    if isinstance(t, TBool):
+                        return z3.BoolVal(False)
+                    if t is None or isinstance(t, TInt):
+                        return z3.IntVal(0)
+                    raise Unsupported('index into empty list of %r' % (t,))
+                return dummy(elem)
             if not all(is_scalar(x) for x in items):
                 if all(isinstance(x, tuple) for x in items):
                     return tuple(SList.of([x[c] for x in items]).get(k) for c in range(len(items[0])))
